@@ -69,7 +69,10 @@ def plan(prop, tier):
     f = PLANS.get(prop)
     if not f:
         raise SystemExit("no plan for " + prop)
-    return f(tier)
+    pl = f(tier)
+    # the "bounds" texts describe each property's core space; every shard that ran is listed by tag in coverage.shard_list
+    pl["bounds"] = pl["bounds"] + " | plus the scenario and sweep shards added by the seeding rounds: every shard of this run is listed in coverage.shard_list, the dimensions are described in DESIGN.md 10.8 and 11.2"
+    return pl
 
 
 def p_c01(tier):
